@@ -15,6 +15,8 @@ package server
 // table; at quiescence the received list equals the expected list exactly.
 
 import (
+	"strconv"
+	"sort"
 	"fmt"
 	"regexp"
 	"strings"
@@ -34,6 +36,8 @@ type c05Step struct {
 	Prev string // absent inside outside
 	New  string // inside outside gone
 	Cross bool
+	// IDs: several objects affected by one step (expiry of more than one object in one sweep)
+	IDs []string
 	// Loose: the statement does not settle this step (an FSET that makes an
 	// object inside the area fail the filter: there is no previous position to
 	// leave); any sub-list of the expected messages is accepted.
@@ -110,8 +114,10 @@ func c05History() []c05Step {
 		set("b", in2, "absent", "inside", false),
 		{Cmd: w("PDEL fk b*"), Verb: "pdel", ID: "b", Prev: "inside", New: "gone"},
 		set("c", in1, "absent", "inside", false),
-		{Cmd: w("SET fk c EX 1 FIELD speed 7 POINT 0 0"), Verb: "set", ID: "c", Prev: "inside", New: "inside"},
-		{Cmd: []string{"@ADVANCE", "1.5"}, Verb: "expire", ID: "c", Prev: "inside", New: "gone"},
+		{Cmd: w("SET fk c EX 20 FIELD speed 7 POINT 0 0"), Verb: "set", ID: "c", Prev: "inside", New: "inside"},
+		{Cmd: w("SET fk c2 EX 20 FIELD speed 7 POINT 0.1 0.1"), Verb: "set", ID: "c2", Prev: "absent", New: "inside"},
+		{Cmd: w("SET fk c3 EX 20 FIELD speed 7 POINT 0.1 0"), Verb: "set", ID: "c3", Prev: "absent", New: "inside"},
+		{Cmd: []string{"@ADVANCE", "21"}, Verb: "expire", ID: "c", IDs: []string{"c", "c2", "c3"}, Prev: "inside", New: "gone"},
 		set("d", in1, "absent", "inside", false),
 		{Cmd: w("DROP fk"), Verb: "drop", Prev: "inside", New: "gone"},
 	}
@@ -136,6 +142,12 @@ func c05Expect(st c05Step, detect map[string]bool, accept map[string]bool, filte
 	case "del", "pdel", "expire":
 		if !acc("del") {
 			return nil, false
+		}
+		if len(st.IDs) > 0 {
+			for _, id := range st.IDs {
+				msgs = append(msgs, c05Msg{"del", "", id})
+			}
+			return msgs, st.Prev != "inside" || !filterOK
 		}
 		return []c05Msg{{"del", "", st.ID}}, st.Prev != "inside" || !filterOK
 	}
@@ -321,7 +333,8 @@ func c05RunConfig(job *Job, res *Result, cfg c05Config) {
 		hist := c05HistoryFor(cfg)
 		for si, st := range hist {
 			if st.Cmd[0] == "@ADVANCE" {
-				vsched.Sleep(int64(1500 * stdtime.Millisecond))
+				sec, _ := strconv.ParseFloat(st.Cmd[1], 64)
+				vsched.Sleep(int64(sec * float64(stdtime.Second)))
 			} else {
 				c.Do(st.Cmd...)
 			}
@@ -356,6 +369,11 @@ func c05RunConfig(job *Job, res *Result, cfg c05Config) {
 				}
 				if recv == "live" && (st.Verb == "drop") {
 					continue // a live fence on a dropped key: not covered by the statement
+				}
+				if len(st.IDs) > 1 {
+					// objects with one deadline: the order of their del messages is not specified
+					sort.Strings(gots)
+					sort.Strings(wants)
 				}
 				g, wnt := strings.Join(gots, " "), strings.Join(wants, " ")
 				if optDel && (g == "" || g == wnt) {
